@@ -82,6 +82,8 @@ type Report struct {
 	QErrors     int
 	SolverSecs  float64
 	CegarIters  int
+	CacheHits   int
+	KnownHits   int
 	WallSecs    float64
 	Exhaustive  bool
 	FrontierLeft int
@@ -144,6 +146,7 @@ func (f *frontier) done() {
 // Explore runs the named harness function of p.Pkg to exhaustion (or to the limits in opt).
 func Explore(p *Program, harness string, opt Options) *Report {
 	t0 := time.Now()
+	ResetQueryCache()
 	rep := &Report{Harness: harness, Covers: map[string]int{}, Reasons: map[string]int{}, Funcs: map[string]int{}, Intrinsics: map[string]int{}}
 	entry := p.Pkg.Func(harness)
 	if entry == nil {
@@ -273,6 +276,8 @@ func Explore(p *Program, harness string, opt Options) *Report {
 			rep.Steps += m.Stats.Steps
 			rep.AssertsOK += m.Stats.Asserts
 			rep.CegarIters += m.Stats.CegarIters
+			rep.CacheHits += m.Stats.CacheHits
+			rep.KnownHits += m.Stats.KnownHits
 			for _, v := range m.Violations {
 				v.Harness = harness
 				rep.Violations = append(rep.Violations, v)
@@ -332,6 +337,7 @@ func (m *Machine) RunInit(pkg *ssa.Package) (err error) {
 	m.ufScanned = map[*Term]bool{}
 	m.known = map[*Term]bool{}
 	m.bounds = map[*Term]rng{}
+	m.sbounds = map[*Term]srng{}
 	m.rmemo = map[*Term]rng{}
 	m.stubs = map[string]value{}
 	m.locks = map[*value]int{}
@@ -367,8 +373,8 @@ func (m *Machine) RunInit(pkg *ssa.Package) (err error) {
 // Summary renders a short human-readable report.
 func (r *Report) Summary() string {
 	var sb strings.Builder
-	fmt.Fprintf(&sb, "harness %s: paths=%d completed=%d infeasible=%d incomplete=%d branches=%d asserts_ok=%d violations=%d exhaustive=%v wall=%.1fs solver=%.1fs queries=%d (sat %d unsat %d unknown %d err %d) cegar=%d\n",
-		r.Harness, r.Paths, r.Completed, r.Infeasible, r.Incomplete, r.Branches, r.AssertsOK, len(r.Violations), r.Exhaustive, r.WallSecs, r.SolverSecs, r.Queries, r.QSat, r.QUnsat, r.QUnknown, r.QErrors, r.CegarIters)
+	fmt.Fprintf(&sb, "harness %s: paths=%d completed=%d infeasible=%d incomplete=%d branches=%d asserts_ok=%d violations=%d exhaustive=%v wall=%.1fs solver=%.1fs queries=%d (sat %d unsat %d unknown %d err %d) cegar=%d cache_hits=%d implied=%d\n",
+		r.Harness, r.Paths, r.Completed, r.Infeasible, r.Incomplete, r.Branches, r.AssertsOK, len(r.Violations), r.Exhaustive, r.WallSecs, r.SolverSecs, r.Queries, r.QSat, r.QUnsat, r.QUnknown, r.QErrors, r.CegarIters, r.CacheHits, r.KnownHits)
 	if r.EngineError != "" {
 		fmt.Fprintf(&sb, "  ENGINE ERROR: %s\n", r.EngineError)
 	}
